@@ -825,3 +825,23 @@ Proof.
       rewrite Q. cbn [fst ev_items ev_writes]. rewrite !ev_items_app, !ev_writes_app, RI, RW. cbn [app map item_obs rev].
       split; [reflexivity|]. destruct (read_frame r) as [[f0 r0]|]; exact L1.
 Qed.
+
+(* ================================================================== the client reads what the terminal's encoder wrote *)
+From Zvt Require Import EnumProps CanonClass CanonRoundtrip TransportProps.
+
+(* a reply serialised by the terminal side (any value of the class `canon`, C01) and sitting in the buffer, followed by anything,
+   is handed to the caller as exactly that variant with exactly that content; it is acknowledged; what follows stays buffered *)
+Theorem poll_roundtrip q id d w k nm c v b rest :
+  settled (get_conn w id) -> w_now w <= d -> k_buf (get_conn w id) = b ++ rest ->
+  nodup_cf (map v_cf (q_replies q)) = true -> nth_error (q_replies q) k = Some (nm, c) ->
+  c_class c < 256 -> c_instr c < 256 -> (depth_fields (c_fields c) <= S FUEL)%nat ->
+  canon_cmd c v = Some b ->
+  seq_next q id PLoop d w =
+  NItem (IOk (N.of_nat k) v) (if is_final (q_mode q) (N.of_nat k) then PDone else PLoop)
+        (write_t (at_time (put_conn w id {| k_queue := []; k_close := true; k_buf := rest |}) (w_now w)) id ACK).
+Proof.
+  intros Hs Hd Hb Hnd Hk Hc Hi Hf Hcan. rewrite (seq_next_is_rp q id d w Hs Hd), Hb.
+  pose proof (stream_roundtrip FUEL (q_replies q) k nm c v b rest Hnd Hk Hc Hi Hf Hcan) as R.
+  unfold read_packet in R. unfold rp. destruct (read_frame (b ++ rest)) as [[f r]|]; [|discriminate].
+  injection R as R1 R2. rewrite R1, R2. reflexivity.
+Qed.
